@@ -175,7 +175,7 @@ def evaluate(lay, base, name, via, rec, l2t=None):
         if via == 'read':
             text = l2t.read_input_file(name)
         else:
-            text = l2t.latex_to_text('\\input{%s}' % name)
+            text = l2t.latex_to_text('\\%s{%s}' % ('input' if len(name) % 2 else 'include', name))
     except Exception as e:
         HOOK['on'] = False
         return 'raised %s: %s' % (type(e).__name__, e)
